@@ -132,6 +132,76 @@ def call_like(prev):
     return prev in (">", "?", "!")
 
 
+def angle_closes(out):
+    """out[-1] is `>`: does it close generic arguments opened in the same statement?  (an arrow still in two
+    characters is skipped: norm_seq runs before glue)"""
+    if len(out) >= 2 and (is_tok(out[-2], "-") or is_tok(out[-2], "=")):
+        return False
+    depth = 0
+    j = len(out) - 2
+    while j >= 0:
+        x = out[j]
+        if is_tok(x, ";"):
+            return False
+        if is_tok(x, ">"):
+            if not (j >= 1 and (is_tok(out[j - 1], "-") or is_tok(out[j - 1], "="))):
+                depth += 1
+        elif is_tok(x, "<"):
+            if depth == 0:
+                return True
+            depth -= 1
+        j -= 1
+    return False
+
+
+def arg_like(out):
+    """is a `(` group that follows the items `out` an argument / parameter list (trailing comma optional, nested
+    parentheses significant) rather than a parenthesised expression / pattern / type or a tuple?  As call_like on
+    the previous item, except that a `]` group which is an attribute and a `>` that closes nothing do not count"""
+    if not out:
+        return False
+    prev = out[-1]
+    if isinstance(prev, G) and prev.d == "[" and len(out) >= 2 and (
+            is_tok(out[-2], "#") or (is_tok(out[-2], "!") and len(out) >= 3 and is_tok(out[-3], "#"))):
+        return False
+    if is_tok(prev, ">"):
+        return angle_closes(out)
+    return call_like(prev)
+
+
+def starts_expr(prev):
+    """can a `|` after prev open a closure's parameter list?"""
+    return prev is None or (isinstance(prev, str) and (prev in ("=", ",", "(", "move", "return", "=>", ":", ";", "async", "static", "&&", "||", "!") or prev in KEYWORDS))
+
+
+def tuple_commas(items):
+    """the commas that separate the elements of a parenthesised list: not those inside matched `<`..`>` (generic
+    arguments) nor those between the pipes of a closure's parameter list"""
+    visible = 0
+    stack = []          # commas seen since each unclosed `<`
+    pipe = None         # commas seen since the opening pipe of a closure parameter list
+    prev = None
+    for x in items:
+        if pipe is not None:
+            if is_tok(x, ","):
+                pipe += 1
+            elif is_tok(x, "|"):
+                pipe = None
+        elif is_tok(x, "|") and starts_expr(prev):
+            pipe = 0
+        elif is_tok(x, "<"):
+            stack.append(0)
+        elif is_tok(x, ">") and stack:
+            stack.pop()
+        elif is_tok(x, ","):
+            if stack:
+                stack[-1] += 1
+            else:
+                visible += 1
+        prev = x
+    return visible + sum(stack) + (pipe or 0)
+
+
 def norm_seq(items, opts, ctx):
     """normalise a sequence of items (strings and groups) at one nesting level; ctx = enclosing delimiter"""
     # recursive normalisation of sub-groups first
@@ -153,9 +223,9 @@ def norm_seq(items, opts, ctx):
             g = G(x.d, inner)
             # redundant nested parentheses ((X)) -> (X)
             if opts.get("remove_nested_parens", "true") == "true":
-                while g.d == "(" and len(g.items) == 1 and isinstance(g.items[0], G) and g.items[0].d == "(" and not call_like(prev):
+                while g.d == "(" and len(g.items) == 1 and isinstance(g.items[0], G) and g.items[0].d == "(" and not arg_like(out):
                     g = g.items[0]
-            if g.d == "(" and len(g.items) == 1 and isinstance(g.items[0], str) and re.match(r"^[0-9]", g.items[0]) and not call_like(prev):
+            if g.d == "(" and len(g.items) == 1 and isinstance(g.items[0], str) and re.match(r"^[0-9]", g.items[0]) and not arg_like(out):
                 out.append(g.items[0])
                 i += 1
                 continue
@@ -343,8 +413,7 @@ def arms_and_closures(seq, opts, ctx):
         x = out[i]
         if is_tok(x, "|"):
             prev = res[-1] if res else None
-            starts_expr = prev is None or (isinstance(prev, str) and (prev in ("=", ",", "(", "move", "return", "=>", ":", ";", "async", "static", "&&", "||", "!") or prev in KEYWORDS)) or (isinstance(prev, G) and False)
-            if starts_expr:
+            if starts_expr(prev):
                 # find the closing pipe of the parameter list
                 j = i + 1
                 if j < n and is_tok(out[j], "|"):
@@ -407,9 +476,8 @@ def trailing_seps(seq, ctx):
         if isinstance(x, G):
             items = x.items
             if items and is_tok(items[-1], ","):
-                prev = out[-1] if out else None
-                ncommas = sum(1 for t in items if is_tok(t, ","))
-                if x.d != "(" or ncommas >= 2 or call_like(prev):
+                # the comma of a one-element tuple (pattern, expression or type) is NOT optional
+                if x.d != "(" or tuple_commas(items) >= 2 or arg_like(out):
                     items = items[:-1]
             if x.d == "{" and items and is_tok(items[-1], ";"):
                 # `return;` / `break;` / `continue;` as the last statement of a block: the `;` is optional
